@@ -608,3 +608,29 @@ pub fn crls_by_key(served: &Served) -> BTreeMap<String, Crl> {
 pub fn parse_serial(s: &str) -> Option<Serial> {
     Serial::from_str(s).ok()
 }
+
+/// CA certificates among the served files, decoded without validation:
+/// (uri, subject key id, authority key id, resources).
+pub fn ca_certs_in(served: &Served) -> Vec<(String, String, String, ResourceSet)> {
+    let mut res = Vec::new();
+    for (u, b) in served {
+        if ext(u) != "cer" {
+            continue;
+        }
+        match Cert::decode(b.clone()) {
+            Ok(c) => {
+                if !c.is_ca() || c.is_self_signed() {
+                    continue;
+                }
+                let Some(aki) = c.authority_key_identifier() else { continue };
+                let rs = ResourceSet::try_from(&c).unwrap_or_default();
+                res.push((u.clone(), c.subject_key_identifier().to_string(), aki.to_string(), rs));
+            }
+            Err(_) => {
+                // undecodable certificate: reported with an empty key
+                res.push((u.clone(), String::new(), String::new(), ResourceSet::empty()));
+            }
+        }
+    }
+    res
+}
